@@ -674,6 +674,9 @@ func (e *Env) evalCall(x *ast.CallExpr) TV {
 						guard = and(guard, lt("0", bv), lt(bv, e.vc.allocOf(e.st)))
 						if nf := e.vc.notForeign(e.st, bv, t); nf != "true" { // H4 patch (allocset.go)
 							guard = and(guard, nf)
+							if e.vc.trackReads {
+								e.vc.heapReads["$region!quant"] = true // the range of this quantifier depends on the typed regions
+							}
 						}
 					}
 				}
